@@ -32,10 +32,11 @@ structure Oracles where
   ip   : Bytes → Bool        -- net.ParseIP(v) != nil
   uri  : Bytes → Bool        -- whatwg url parser accepts v
   http : Bool → Bytes → Bool -- http.ReadResponse (true) / http.ReadRequest (false) accepts the head
-  /-- the gzip codec at a stream offset: `none` = no verdict supplied; `some (.inl tag)` = the member header is rejected;
+  /-- the gzip codec on the bytes from the start of a member to the end of the stream (a deterministic decoder's verdict is
+      a function of exactly these bytes): `none` = no verdict supplied; `some (.inl tag)` = the member header is rejected;
       `some (.inr (content, bad, consumed))` = decompressed bytes of this member, whether the member then ends in an error
       (truncated / corrupt) instead of cleanly, and the number of compressed bytes up to the end of the member -/
-  gz   : Nat → Option (Sum Tag (Bytes × Bool × Nat)) := fun _ => none
+  gz   : Bytes → Option (Sum Tag (Bytes × Bool × Nat)) := fun _ => none
 
 /-- state threaded through validation: the header (repairs rewrite it) and the findings -/
 structure St where
@@ -433,7 +434,7 @@ def unmarshal (o : Opts) (Ω : Oracles) (s : Stream) : URes :=
       let fnd0 : List Tag := if o.syn != .ignore && off != 0 then [.synJunk] else []
       if atMagic.take 2 == [0x1f, 0x8b] then
         -- one gzip member per record: the record is read from the decompressed member, the rest of the member is drained
-        match Ω.gz off with
+        match Ω.gz atMagic with
         | none => ⟨none, off, fnd0, some .other, []⟩
         | some (.inl t) => ⟨none, off, fnd0, some t, []⟩
         | some (.inr (content, bad, consumed)) =>
